@@ -53,14 +53,12 @@ theorem applyTreeChanges_bundle {st : Strategy} {b : Bundle} {t : Tree} {out : E
   · exact (retain_mem ha ((applyAddsF_sublist ha').subset hp)).2
 
 theorem applyTreeChanges_stable {b : Bundle} {t : Tree} {out : EditOut}
-    (h : applyTreeChanges .send b t = .ok out) (hnr : treeChangesRevert b t = false) :
+    (h : applyTreeChanges .send b t = .ok out) :
     applyTreeChanges .receive out.bundle t = .ok out := by
   obtain ⟨_, _, _, _, _, _, _, hou, hoa⟩ := applyTreeChanges_bundle h
   obtain ⟨us, as, hu, ha, hb⟩ := applyTreeChanges_ok h
-  unfold treeChangesRevert at hnr
-  rw [hu] at hnr
   have hb' : batchEditF true { b with updates := us, adds := as } t = .ok out := hb
-  have := batchEditF_stable hb' hnr
+  have := batchEditF_stable hb'
   rw [applyTreeChanges_of (retain_of_all hou) (retain_of_all hoa)]
   exact this
 
@@ -129,14 +127,14 @@ theorem applyProposalChanges_bundle {st : Strategy} {b : Bundle} {t : Tree} {out
         · cases h
 
 theorem applyProposalChanges_stable {b : Bundle} {t : Tree} {out : EditOut}
-    (h : applyProposalChanges .send b t = .ok out) (hnr : treeChangesRevert b t = false) :
+    (h : applyProposalChanges .send b t = .ok out) :
     applyProposalChanges .receive out.bundle t = .ok out := by
   cases hg : b.gces with
   | nil =>
     rw [applyProposalChanges_nil hg] at h
     have hg' : out.bundle.gces = [] := by rw [(applyTreeChanges_bundle h).2.2.2.1, hg]
     rw [applyProposalChanges_nil hg']
-    exact applyTreeChanges_stable h hnr
+    exact applyTreeChanges_stable h
   | cons g gs =>
     rw [applyProposalChanges_cons hg] at h
     split at h
@@ -146,12 +144,12 @@ theorem applyProposalChanges_stable {b : Bundle} {t : Tree} {out : EditOut}
       · rename_i hc
         cases h
         have hg' : out.bundle.gces = g :: gs := by rw [(applyTreeChanges_bundle h1).2.2.2.1, hg]
-        rw [applyProposalChanges_cons hg', applyTreeChanges_stable h1 hnr]
+        rw [applyProposalChanges_cons hg', applyTreeChanges_stable h1]
         simp only [hc, ite_true]
       · split at h
         · have hg' : out.bundle.gces = [] := (applyTreeChanges_bundle h).2.2.2.1
           rw [applyProposalChanges_nil hg']
-          exact applyTreeChanges_stable h hnr
+          exact applyTreeChanges_stable h
         · cases h
 
 theorem applyProposalChanges_receive {b : Bundle} {t : Tree} {out : EditOut}
@@ -323,7 +321,8 @@ theorem Clean.mono {c : Nat} {b' B : Bundle} (h : Clean c b')
 
 /-! ## `NoRevert` and the assembly -/
 
-/-- the committer's run on `(c, b, t)` does not take the revert-all branch of `batch_edit` -/
+/-- the committer's run on `(c, b, t)` does not take the revert-all branch of `batch_edit`
+(no longer a hypothesis of anything since repair F16; kept to describe runs, see `Props/C10`) -/
 def noRevert (c : Nat) (b : Bundle) (t : Tree) : Bool :=
   match prepare .send c b with
   | .ok b' => !treeChangesRevert b' t
@@ -345,15 +344,11 @@ theorem out_clean {st : Strategy} {c : Nat} {b : Bundle} {t : Tree} {out : EditO
   · exact Or.inr h4.1
 
 theorem send_accepted_core {c : Nat} {b : Bundle} {t : Tree} {out : EditOut}
-    (h : applyFromMember .send c b t = .ok out) (hnr : NoRevert c b t) :
+    (h : applyFromMember .send c b t = .ok out) :
     applyFromMember .receive c out.bundle t = .ok out := by
   obtain ⟨b', hp, hc⟩ := applyFromMember_ok h
-  have hnr' : treeChangesRevert b' t = false := by
-    unfold NoRevert noRevert at hnr
-    rw [hp] at hnr
-    simpa using hnr
   rw [applyFromMember_of (out_clean h).prepare]
-  exact applyProposalChanges_stable hc hnr'
+  exact applyProposalChanges_stable hc
 
 /-- the strict mode changes nothing in the bundle -/
 theorem prepare_receive {c : Nat} {b b' : Bundle} (h : prepare .receive c b = .ok b') : b' = b := by
